@@ -43,16 +43,16 @@ func (c15) Cases(tier string) int {
 }
 func (c15) Describe() core.Info {
 	return core.Info{
-		Level: "exploration",
-		Rule: "transform-free typed random programs in the fragment the property names (positive atoms incl. wildcards, negated atoms, equalities incl. function expressions, inequalities; linear, non-linear and mutual recursion with several derivation paths; every sixth case is a 'knot': 3-7 unary predicates in one strongly connected component with 1-3 rules each on a domain of 1-2 constants, so that most goals recur below themselves and the cycle cut and the memo tables are exercised), every fact of the evaluated store as goal, MaxProofs in {1,3,10}, MaxDepth in {2,8,64}; both provenance.Explain and a MemoryRecorder + BuildFromRecording; a third of the cases are programs with let/do transforms, checked in recorded mode only. Independent proof checker: every derived node's fact is the rule head under the reported bindings (completed by unifying each positive/negated body literal with its sub-proof's fact, in body order, and by binding equalities), (in)equalities hold, EDB leaves are in the store, absence leaves are not, no fact is its own ancestor; let nodes have the body atoms under the row as premises, do nodes have exactly the facts of the group. Existence: with MaxDepth 64 every stored fact of a transform-free program has a complete (non-partial) proof. IDs: a table id<->canonical content accumulated over the whole worker run must stay a bijection. The store with and without a recorder must be equal. Non-trivial: goal is derived and proof depth >= 2 or program has a recursion candidate; distinct by (program, options).",
-		Assumptions: []string{"comparison and other built-in predicates are outside the fragment for which the property promises a proof and are not generated in the transform-free workload"},
+		Level:          "exploration",
+		Rule:           "transform-free typed random programs in the fragment the property names (positive atoms incl. wildcards, negated atoms, equalities incl. function expressions, inequalities; linear, non-linear and mutual recursion with several derivation paths; every third case is a 'knot': 3-7 unary predicates in one strongly connected component with 1-3 rules each (a quarter of them mention one predicate twice) on a domain of 1-2 constants, so that most goals recur below themselves and the cycle cut and the memo tables are exercised), every fact of the evaluated store as goal, MaxProofs in {1,3,10}, MaxDepth in {2,8,64}; both provenance.Explain and a MemoryRecorder + BuildFromRecording; a third of the cases are programs with let/do transforms, checked in recorded mode only. Independent proof checker: every derived node's fact is the rule head under the reported bindings (completed by unifying each positive/negated body literal with its sub-proof's fact, in body order, and by binding equalities), (in)equalities hold, EDB leaves are in the store, absence leaves are not, no fact is its own ancestor; let nodes have the body atoms under the row as premises, do nodes have exactly the facts of the group. Existence: with MaxDepth 64 every stored fact of a transform-free program has a complete (non-partial) proof. IDs: a table id<->canonical content accumulated over the whole worker run must stay a bijection. The store with and without a recorder must be equal. Non-trivial: goal is derived and proof depth >= 2 or program has a recursion candidate; distinct by (program, options).",
+		Assumptions:    []string{"comparison and other built-in predicates are outside the fragment for which the property promises a proof and are not generated in the transform-free workload"},
 		PerCaseTimeout: 120e9,
 	}
 }
 
 func (c15) Gen(r *rand.Rand, tier string, i int) any {
 	c := c15Case{MaxProofs: []int{1, 3, 10}[r.Intn(3)], MaxDepth: []int{2, 8, 64, 64}[r.Intn(4)]}
-	if i%6 == 1 {
+	if i%6 == 1 || i%6 == 4 {
 		// dense mutual recursion: most goals are reached again below themselves
 		c.Prog = gen.RandKnotProgram(r)
 		c.MaxDepth = 64
@@ -643,62 +643,71 @@ func c15Exec(c c15Case, res *core.Result) (skip string, fail *c15Fail) {
 			run  func() ([]*provenance.ProofNode, error)
 			pc   *proofChecker
 		}
-		modes := []mode{{"recorded", func() ([]*provenance.ProofNode, error) { return provenance.BuildFromRecording(rec, recorded, goal, opts) }, pcRec}}
+		modes := []mode{{"recorded", func() ([]*provenance.ProofNode, error) {
+			return provenance.BuildFromRecording(rec, recorded, goal, opts)
+		}, pcRec}}
 		if !c.Transform {
 			modes = append(modes, mode{"explain", func() ([]*provenance.ProofNode, error) { return provenance.Explain(pi, plain, goal, opts) }, pcPlain})
 		}
-		for _, m := range modes {
-			var proofs []*provenance.ProofNode
-			var perr error
-			panicMsg := ""
-			func() {
-				defer func() {
-					if r := recover(); r != nil {
-						panicMsg = fmt.Sprint(r)
-					}
+		limits := []int{c.MaxProofs}
+		if c.Knot {
+			limits = []int{1, 2, 3, 10} // the alternatives of a goal share sub-proofs: every limit is another path through the memo tables
+		}
+		for _, mp := range limits {
+			opts.MaxProofs = mp
+			for _, m := range modes {
+				var proofs []*provenance.ProofNode
+				var perr error
+				panicMsg := ""
+				func() {
+					defer func() {
+						if r := recover(); r != nil {
+							panicMsg = fmt.Sprint(r)
+						}
+					}()
+					proofs, perr = m.run()
 				}()
-				proofs, perr = m.run()
-			}()
-			if panicMsg != "" {
-				return "", &c15Fail{m.name + ":panic", fmt.Sprintf("%s panics on goal %v: %s", m.name, goal, panicMsg)}
-			}
-			if perr != nil {
-				if errors.Is(perr, provenance.ErrNoProof) {
-					if c.Transform {
-						continue // existence is only promised for transform-free programs
+				if panicMsg != "" {
+					return "", &c15Fail{m.name + ":panic", fmt.Sprintf("%s panics on goal %v: %s", m.name, goal, panicMsg)}
+				}
+				if perr != nil {
+					if errors.Is(perr, provenance.ErrNoProof) {
+						if c.Transform {
+							continue // existence is only promised for transform-free programs
+						}
+						return "", &c15Fail{m.name + ":no-proof" + c15Why(c.Prog, goal), fmt.Sprintf("%s: stored fact %v of a transform-free program has no proof", m.name, goal)}
 					}
-					return "", &c15Fail{m.name + ":no-proof" + c15Why(c.Prog, goal), fmt.Sprintf("%s: stored fact %v of a transform-free program has no proof", m.name, goal)}
+					return "", &c15Fail{m.name + ":error", fmt.Sprintf("%s: goal %v: %v", m.name, goal, perr)}
 				}
-				return "", &c15Fail{m.name + ":error", fmt.Sprintf("%s: goal %v: %v", m.name, goal, perr)}
-			}
-			if len(proofs) > c.MaxProofs {
-				return "", &c15Fail{m.name + ":too-many-proofs", fmt.Sprintf("%s returned %d proofs for MaxProofs %d", m.name, len(proofs), c.MaxProofs)}
-			}
-			complete := false
-			for _, p := range proofs {
-				if canon.Atom(p.Fact) != canon.Atom(goal) {
-					return "", &c15Fail{m.name + ":wrong-goal", fmt.Sprintf("%s: proof for %v proves %v", m.name, goal, p.Fact)}
+				if len(proofs) > mp {
+					return "", &c15Fail{m.name + ":too-many-proofs", fmt.Sprintf("%s returned %d proofs for MaxProofs %d", m.name, len(proofs), mp)}
 				}
-				maxD := 0
-				if err := m.pc.check(p, map[string]bool{}, 0, &maxD); err != nil {
-					return "", &c15Fail{m.name + ":invalid-proof", fmt.Sprintf("%s: proof of %v is not a valid derivation: %v", m.name, goal, err)}
-				}
-				if err := c15RegisterIDs(p, map[*provenance.ProofNode]bool{}); err != nil {
-					return "", &c15Fail{m.name + ":id-not-content-addressed", err.Error()}
-				}
-				if !c15AnyPartial(p) || c15DepthLimited(p) {
-					// a proof cut at MaxDepth is legitimately partial: the derivation is deeper than the limit
-					complete = true
-				}
-				if res != nil {
-					res.Ob("proofs_checked", 1)
-					if isIDB && maxD >= 2 {
-						res.Ob("derived_goals_with_depth_2+", 1)
+				complete := false
+				for _, p := range proofs {
+					if canon.Atom(p.Fact) != canon.Atom(goal) {
+						return "", &c15Fail{m.name + ":wrong-goal", fmt.Sprintf("%s: proof for %v proves %v", m.name, goal, p.Fact)}
+					}
+					maxD := 0
+					if err := m.pc.check(p, map[string]bool{}, 0, &maxD); err != nil {
+						return "", &c15Fail{m.name + ":invalid-proof", fmt.Sprintf("%s: proof of %v is not a valid derivation: %v", m.name, goal, err)}
+					}
+					if err := c15RegisterIDs(p, map[*provenance.ProofNode]bool{}); err != nil {
+						return "", &c15Fail{m.name + ":id-not-content-addressed", err.Error()}
+					}
+					if !c15AnyPartial(p) || c15DepthLimited(p) {
+						// a proof cut at MaxDepth is legitimately partial: the derivation is deeper than the limit
+						complete = true
+					}
+					if res != nil {
+						res.Ob("proofs_checked", 1)
+						if isIDB && maxD >= 2 {
+							res.Ob("derived_goals_with_depth_2+", 1)
+						}
 					}
 				}
-			}
-			if !complete && !c.Transform && c.MaxDepth >= 64 {
-				return "", &c15Fail{m.name + ":only-partial-proofs" + c15Why(c.Prog, goal), fmt.Sprintf("%s: every proof of %v is marked Partial although the program is transform-free and the depth limit was not reached", m.name, goal)}
+				if !complete && !c.Transform && c.MaxDepth >= 64 {
+					return "", &c15Fail{m.name + ":only-partial-proofs" + c15Why(c.Prog, goal), fmt.Sprintf("%s: every proof of %v is marked Partial although the program is transform-free and the depth limit was not reached", m.name, goal)}
+				}
 			}
 		}
 	}
